@@ -21,7 +21,7 @@ use litep2p::{
     },
     error::NegotiationError,
     protocol::mdns::verif::{VerifMdns, VerifMdnsOutcome},
-    transport::websocket::verif::VerifWsStream,
+    transport::websocket::verif_stream::VerifWsStream,
     types::multiaddr::Multiaddr,
 };
 use std::{
